@@ -508,6 +508,18 @@ pub fn terminal_checks(sim: &mut Sim, snap: &VerifSnapshot, m: Mon, ex: &mut Exe
                 v.push(viol("C04", "necessary-not-executed", format!("{} not executed but must be (uptodate={})", id, refr.uptodate[j])));
             }
         }
+        if on(m, 15) && !amb && cfg.cmp != Cmp::Plain {
+            // "records that differ textually but are judged unaltered by the configured comparison never
+            // cause a job to be executed": against the reference, which asks the comparison the right way
+            ex.hit("C15.job-under-tolerant-comparison");
+            if sim.started[j] && !refr.exec[j] {
+                v.push(viol(
+                    "C15",
+                    "executed-although-judged-unaltered",
+                    format!("{} executed although every record it depends on is judged unaltered by the configured comparison ({:?})", id, cfg.cmp),
+                ));
+            }
+        }
         if !sim.aborted {
             if on(m, 7) {
                 if any_failed && g.jobs[j].kind != Kind::E && !failed_anc[j] && disp[j] != Disp::Failed && !amb {
@@ -826,10 +838,13 @@ pub fn misuse_checks(sim: &mut Sim, ex: &mut Exercised) -> u64 {
     let cfg = sim.cfg.clone();
     let n = cfg.graph.n();
     let snap0 = sim.eng.verif_snapshot();
-    let q0 = queries(&mut sim.eng);
-    let hist0 = if q0.0 { sim.eng.new_history().ok() } else { None };
+    // the reference answers come from a copy: is_finished() is a query with a side effect (it latches
+    // the start status), and the engine under test must not be touched before the illegal calls
+    let mut reference_copy = sim.fork();
+    let q0 = queries(&mut reference_copy.eng);
+    let hist0 = if q0.0 { reference_copy.eng.new_history().ok() } else { None };
     let outs0: Vec<Option<String>> = (0..n)
-        .map(|j| match sim.eng.get_job_output(&cfg.graph.jobs[j].id) {
+        .map(|j| match reference_copy.eng.get_job_output(&cfg.graph.jobs[j].id) {
             JobOutputResult::Done(s) => Some(s),
             _ => None,
         })
